@@ -116,6 +116,16 @@ type MapKeyed struct {
 type MapInt map[int]string
 type StrMap map[string]int
 
+// a named map type (which may carry its own key-order morphism) next to a plain map
+type TwoMaps struct {
+	Canon StrMap
+	Plain map[string]int
+	Again StrMap
+}
+
+// transformed to a struct that has its own (untagged) struct-map entry
+type TrSq struct{ V string }
+
 // ---------------------------------------------------------------- transform library
 
 type trPair struct {
@@ -154,6 +164,9 @@ var transforms = []trPair{
 	{4,
 		func(c TrComp) ([]int, error) { return c.L, nil },
 		func(l []int) (TrComp, error) { return TrComp{l}, nil }},
+	{5,
+		func(t TrSq) (Square, error) { return Square{t.V}, nil },
+		func(q Square) (TrSq, error) { return TrSq{q.S}, nil }},
 }
 
 // ---------------------------------------------------------------- type registry
@@ -292,7 +305,8 @@ func buildAtlases() {
 	trFuncID[reflect.TypeOf(TrNum(0))] = 2
 	trFuncID[reflect.TypeOf(TrBytes{})] = 3
 	trFuncID[reflect.TypeOf(TrComp{})] = 4
-	structs := []interface{}{Inner{}, WithPtr{}, Emb{}, Rec{}, Tagged{}, OmitAll{}, Nums{}, HasShape{}, HasNoAtlas{}, MapKeyed{}, Circle{}, Square{}}
+	trFuncID[reflect.TypeOf(TrSq{})] = 5
+	structs := []interface{}{Inner{}, WithPtr{}, Emb{}, Rec{}, Tagged{}, OmitAll{}, Nums{}, HasShape{}, HasNoAtlas{}, MapKeyed{}, TwoMaps{}, Circle{}, Square{}}
 	mk := func(id int, sort atlas.KeySortMode, mode atlas.KeySortMode, tags bool, extra ...*atlas.AtlasEntry) {
 		var es []*atlas.AtlasEntry
 		tag := 100
@@ -306,11 +320,11 @@ func buildAtlases() {
 		}
 		circle, square := es[len(es)-2], es[len(es)-1]
 		es = append(es, atlas.BuildEntry((*Shape)(nil)).KeyedUnion().Of(map[string]*atlas.AtlasEntry{"circle": circle, "sq": square}))
-		tt := -1
+		tt, sqTag := -1, -1
 		if tags {
-			tt = 23
+			tt, sqTag = 23, 25
 		}
-		es = append(es, trEntry(KeyStruct{}, 1, -1), trEntry(TrNum(0), 2, tt), trEntry(TrBytes{}, 3, tt+1), trEntry(TrComp{}, 4, -1))
+		es = append(es, trEntry(KeyStruct{}, 1, -1), trEntry(TrNum(0), 2, tt), trEntry(TrBytes{}, 3, tt+1), trEntry(TrComp{}, 4, -1), trEntry(TrSq{}, 5, sqTag))
 		es = append(es, extra...)
 		a := atlas.MustBuild(es...).WithMapMorphism(atlas.MapMorphism{KeySortMode: sort})
 		atlases = append(atlases, &atlasCfg{id: id, atl: a, entries: es, nReg: len(es), sort: sort})
@@ -328,13 +342,24 @@ func buildAtlases() {
 	mm := atlas.BuildEntry(StrMap{}).MapMorphism().SetKeySortMode(atlas.KeySortMode_RFC7049).Complete()
 	{
 		save := structs
-		structs = []interface{}{Inner{}, WithPtr{}, Rec{}, Tagged{}, OmitAll{}, Nums{}, HasShape{}, HasNoAtlas{}, MapKeyed{}, Circle{}, Square{}}
+		structs = []interface{}{Inner{}, WithPtr{}, Rec{}, Tagged{}, OmitAll{}, Nums{}, HasShape{}, HasNoAtlas{}, MapKeyed{}, TwoMaps{}, Circle{}, Square{}}
 		mk(3, atlas.KeySortMode_Strings, atlas.KeySortMode_Strings, true, embEntry, mm)
 		structs = save
 	}
 	// 4: like 1 plus an entry for the struct reached through an embedded pointer
 	ep := atlas.BuildEntry(EmbPtr{}).StructMap().Autogenerate().Complete()
 	mk(4, atlas.KeySortMode_Default, atlas.KeySortMode_Default, false, ep)
+}
+
+// freshAtlases builds a new set of the hand-made atlas configurations (same ids, new Atlas values and entries).
+func freshAtlases() []*atlasCfg {
+	buildAtlases()
+	save := atlases
+	atlases = nil
+	buildAtlases()
+	out := atlases
+	atlases = save
+	return out
 }
 
 func sortName(m atlas.KeySortMode) string { return string(m) }
@@ -420,7 +445,7 @@ func rootTypes() []reflect.Type {
 		float32(0), float64(0), []byte{}, MyInt(0), MyI8(0), MyI16(0), MyU16(0), MyU32(0), MyStr(""), MyBool(false), MyF32(0), MyBytes{},
 		Arr4{}, Arr0{}, [3]byte{}, []MyByte{}, [2]MyByte{},
 		Inner{}, WithPtr{}, Emb{}, EmbPtr{}, Rec{}, Tagged{}, OmitAll{}, Nums{}, KeyStruct{}, TrNum(0), TrBytes{}, TrComp{}, HasShape{},
-		NoAtlas{}, HasNoAtlas{}, MapKeyed{}, MapInt{}, StrMap{}, Circle{}, Square{},
+		NoAtlas{}, HasNoAtlas{}, MapKeyed{}, MapInt{}, StrMap{}, Circle{}, Square{}, TwoMaps{}, TrSq{}, []TrSq{}, map[string]TrSq{}, map[string]NoAtlas{}, map[string][]NoAtlas{}, []map[string]int{}, (*int64)(nil), []int64{},
 		[]int{}, []string{}, [2]string{}, [0]int{}, [][]int{}, []*int{}, []interface{}{}, map[string]int{}, map[string]interface{}{},
 		map[string][]byte{}, map[string]map[string]string{}, map[KeyStruct]string{}, map[TrNum]int{}, map[int]int{}, map[MyStr]int{},
 		(*int)(nil), (**string)(nil), (*[]int)(nil), (*Inner)(nil), (***Inner)(nil), (*interface{})(nil), []*Inner{}, map[string]*Rec{},
